@@ -342,8 +342,15 @@ def api_worker(args):
     return hutil.export(chk)
 
 
+def abi_consts_worker(args):
+    """out-of-line ABI mode: enumerator values travel through ffiobj_init -> _cdl_realize_global_int -> realize_global_int;
+    the obligation (every Python int in [-2**63, 2**64) comes back exactly) is the one of harness/C11.py"""
+    from harness import C11
+    return C11.c_worker((args[0], args[1], 'c-consts'))
+
+
 def dispatch(args):
-    return {'base': base_worker, 'values': values_worker, 'c': c_worker, 'api': api_worker}[args[2]](args)
+    return {'base': base_worker, 'values': values_worker, 'c': c_worker, 'api': api_worker, 'abi-consts': abi_consts_worker}[args[2]](args)
 
 
 def run(chk):
@@ -356,9 +363,11 @@ def run(chk):
             cases.append(P + ('values', pat))
     cases += [P + ('c', n) for n in range(1, 4 if quick else 5)]
     cases.append(P + ('api',))
+    cases.append(P + ('abi-consts',))
     chk.bounds = {'underlying type': 'enums of 1..%d enumerators with arbitrary integer values' % (2 if quick else 3),
                   'values': 'every explicit/implicit pattern of <= %d enumerators, explicit values arbitrary' % NE,
                   'ffi.string': 'enums of <= %d enumerators with arbitrary (possibly duplicate) int values, any stored value' % (3 if quick else 4)}
+    chk.bounds['out-of-line ABI mode'] = 'every enumerator value in [-2**63, 2**64) through the module\'s _globals unpacking'
     chk.bounds['API mode'] = '_cffi_prim_int(size, sign) / _cffi_prim_float(size) for every 64-bit size and every sign'
     chk.outside = ['that the C compiler evaluates sizeof(enum) and ((enum)-1) <= 0 as it lays the enum out (the compiler); enumerator values in API mode are C12\'s constants',
                    'explicit values given by expressions (C09)', 'enums declared with "..."']
